@@ -1,6 +1,7 @@
 (* Go's sized integer arithmetic over Z: the wrap functions used by the definitions that tools/gotrans
    translates from the Go source (coq/Gen/Funcs.v), and the lemmas that remove them inside the type's range *)
-From Coq Require Import ZArith Lia.
+From Coq Require Import NArith ZArith Lia.
+From GoMC Require Import Base.Bytes.
 Local Open Scope Z_scope.
 
 Definition wrap_u (w : Z) (z : Z) : Z := z mod 2 ^ w.
@@ -40,3 +41,21 @@ Qed.
 
 Lemma wrap_u_of_s w z : 0 < w -> wrap_u w (wrap_s w z) = wrap_u w z.
 Proof. intros Hw. unfold wrap_u. apply wrap_s_mod, Hw. Qed.
+
+(* Base.Bytes wraps vs the wraps above; masks *)
+Lemma sx_wrapu_wrap_s64 t : sx64 (u64 t) = wrap_s 64 t.
+Proof.
+  unfold sx64, sx, u64, wrapu, wrap_s.
+  change (Z.of_N 64) with 64. change (2 ^ (64 - 1))%N with 9223372036854775808%N.
+  change (2 ^ (64 - 1)) with 9223372036854775808. change (2 ^ 64) with 18446744073709551616.
+  assert (H : 0 <= t mod 18446744073709551616 < 18446744073709551616) by (apply Z.mod_pos_bound; lia).
+  rewrite Z2N.id by lia.
+  destruct (N.ltb_spec (Z.to_N (t mod 18446744073709551616)) 9223372036854775808) as [L|L]; lia.
+Qed.
+
+Lemma land_ones_range a k : 0 <= k -> 0 <= Z.land a (2 ^ k - 1) < 2 ^ k.
+Proof.
+  intros Hk. replace (2 ^ k - 1) with (Z.ones k) by (rewrite Z.ones_equiv; lia).
+  rewrite Z.land_ones by lia. apply Z.mod_pos_bound. apply Z.pow_pos_nonneg; lia.
+Qed.
+
